@@ -13,9 +13,9 @@ cmp -s /tmp/confirm_$N.diff out/patch.diff || { git diff --stat >> "$LOG"; echo 
 cp /tmp/confirm_$N.diff "$O/patch.diff"
 git -C /repo apply --check "$O/patch.diff" 2>>"$LOG" && echo "applies_to_repo_head: yes" >> "$LOG" || echo "applies_to_repo_head: NO" >> "$LOG"
 echo "== demo WITH patch" >> "$LOG"; (sh -c "$CMD") > /tmp/confirm_$N.with 2>&1; RW=$?; tail -15 /tmp/confirm_$N.with >> "$LOG"; echo "rc_with=$RW" >> "$LOG"
-git stash -q
+git apply -R /tmp/confirm_$N.diff
 echo "== demo WITHOUT patch" >> "$LOG"; (sh -c "$CMD") > /tmp/confirm_$N.without 2>&1; RO=$?; tail -8 /tmp/confirm_$N.without >> "$LOG"; echo "rc_without=$RO" >> "$LOG"
-git stash pop -q
+git apply /tmp/confirm_$N.diff
 if [ "${2:-}" = "--full" ]; then
   echo "== baseline suite WITH patch" >> "$LOG"
   cargo nextest run --workspace --no-fail-fast --tool-config-file pb:/w/lib/nextest.toml --profile pb --test-threads 8 --offline > /tmp/confirm_$N.nextest 2>&1
